@@ -1,5 +1,6 @@
 import SodiumModel.Model.Hash
 import SodiumModel.Model.CompressRef
+import SodiumModel.Model.Blake2bSimd
 import SodiumModel.Spec.Sha256
 import SodiumModel.Spec.Sha512
 import SodiumModel.Spec.Blake2b
@@ -19,6 +20,14 @@ def sha256C : Sha256.State → Bytes → Sha256.State := CompressRef.Sha256.tran
 def sha512C : Sha512.State → Bytes → Sha512.State := CompressRef.Sha512.transform
 /-- `blake2b_compress_ref` in the shape `F h block t last` (`t` ↦ `t[0], t[1]`, `last` ↦ `f[0]`) -/
 def blake2bF : Blake2b.State → Bytes → Nat → Bool → Blake2b.State := CompressRef.Blake2b.compressF
+
+/-- `blake2b_compress_avx2` / `_ssse3` / `_sse41` (Model/Blake2bSimd.lean: the intrinsics-level models of
+    the SIMD compression functions) in the same shape; the driver runs every BLAKE2b operation through
+    all four and prints MODEL-DISAGREE if they differ.  `Properties/C04Simd.lean` proves each equal to
+    `Spec.Blake2b.compress`. -/
+def blake2bF_avx2 : Blake2b.State → Bytes → Nat → Bool → Blake2b.State := Blake2bSimd.compressF_avx2
+def blake2bF_ssse3 : Blake2b.State → Bytes → Nat → Bool → Blake2b.State := Blake2bSimd.compressF_ssse3
+def blake2bF_sse41 : Blake2b.State → Bytes → Nat → Bool → Blake2b.State := Blake2bSimd.compressF_sse41
 
 def H256 : HashOps Sha256.State :=
   { W := 64, outLen := 32, init := mdInit Sha256.iv, update := mdUpdate sha256C 64 64,
